@@ -153,7 +153,13 @@ pub fn load_known(id: &str) -> Vec<Known> {
                 }
                 desc.push(tok);
             }
-            if property == id {
+            // "property=C08,C09": the first id owns the finding (replays and reports it); the
+            // others only use it to recognise the same defect when their generators run into it
+            let mut ids = property.split(',');
+            let owner = ids.next().unwrap_or("").to_string();
+            let applies = owner == id || ids.any(|x| x == id);
+            if applies {
+                let property = if owner == id { owner } else { format!("also:{}", owner) };
                 v.push(Known {
                     property,
                     sig,
@@ -275,8 +281,32 @@ impl CurFile {
     }
 }
 
+/// A signature is `base` or `base+T1+T2…` where the Ti are trigger events that the failing case
+/// executed. It matches the known findings when it is listed verbatim, or when every `base+Ti`
+/// is listed (a case that ran into several recorded defects at once).
 fn known_match<'a>(known: &'a [Known], sig: &str) -> Option<&'a Known> {
-    known.iter().find(|k| k.sig == sig)
+    if let Some(k) = known.iter().find(|k| k.sig == sig) {
+        return Some(k);
+    }
+    let mut parts = sig.split('+');
+    let base = parts.next()?;
+    let triggers: Vec<&str> = parts.collect();
+    if triggers.is_empty() {
+        return None;
+    }
+    let mut first = None;
+    for t in triggers {
+        let want = format!("{}+{}", base, t);
+        match known.iter().find(|k| k.sig == want) {
+            Some(k) => {
+                if first.is_none() {
+                    first = Some(k);
+                }
+            }
+            None => return None,
+        }
+    }
+    first
 }
 
 /// Run worker `w` of `n`: its share of every family. Writes a JSON report to `out`.
@@ -493,11 +523,25 @@ fn self_exe() -> PathBuf {
     std::env::current_exe().expect("current_exe")
 }
 
+/// This executable, started through a shell that caps its address space (a runaway case must
+/// not take the machine down).
+fn limited_command() -> Command {
+    let kb: u64 = std::env::var("VERIF_MEM_KB")
+        .ok()
+        .and_then(|s| s.parse().ok())
+        .unwrap_or(8 * 1024 * 1024);
+    let mut c = Command::new("/bin/sh");
+    c.arg("-c")
+        .arg(format!("ulimit -v {}; exec \"$0\" \"$@\"", kb))
+        .arg(self_exe());
+    c
+}
+
 /// Run one case in a subprocess; Some(sig) if it fails or crashes, None if it passes.
 fn subprocess_case(id: &str, family: &str, bytes: &[u8], tier: Tier, dir: &Path) -> Option<String> {
     let f = dir.join(format!("single-{}.case", std::process::id()));
     fs::write(&f, format!("{} {}\n", family, hex(bytes))).ok()?;
-    let out = Command::new(self_exe())
+    let mut child = limited_command()
         .arg(id)
         .arg("--single")
         .arg(&f)
@@ -505,8 +549,25 @@ fn subprocess_case(id: &str, family: &str, bytes: &[u8], tier: Tier, dir: &Path)
         .arg(tier.name())
         .stdout(Stdio::piped())
         .stderr(Stdio::null())
-        .output()
+        .spawn()
         .ok()?;
+    let t0 = Instant::now();
+    loop {
+        match child.try_wait() {
+            Ok(Some(_)) => break,
+            Ok(None) => {
+                if t0.elapsed().as_secs() > 120 {
+                    let _ = child.kill();
+                    let _ = child.wait();
+                    let _ = fs::remove_file(&f);
+                    return Some("timeout".to_string());
+                }
+                std::thread::sleep(std::time::Duration::from_millis(5));
+            }
+            Err(_) => break,
+        }
+    }
+    let out = child.wait_with_output().ok()?;
     let _ = fs::remove_file(&f);
     match out.status.code() {
         Some(0) => None,
@@ -591,7 +652,7 @@ pub fn run_parent(prop: &dyn Property, tier: Tier, seed: u64) -> i32 {
         }
     }
     let mut known_still_failing = 0;
-    for k in &known {
+    for k in known.iter().filter(|k| !k.property.starts_with("also:")) {
         let f = root.join(&k.replay);
         match read_replay(&f) {
             Some((family, bytes, _)) => match subprocess_case(id, &family, &bytes, tier, &work) {
@@ -637,7 +698,7 @@ pub fn run_parent(prop: &dyn Property, tier: Tier, seed: u64) -> i32 {
     let mut children = Vec::new();
     for w in 0..n {
         let out = work.join(format!("w{}.json", w));
-        let child = Command::new(self_exe())
+        let child = limited_command()
             .arg(id)
             .arg("--worker")
             .arg(format!("{}/{}", w, n))
